@@ -12,7 +12,11 @@ before a check fails and the roll-back (`del group[name]`) in the `except` branc
 the repairs committed in /repo: mixed element types are written (5bedc75); element nodal values are written
 grouped by element (c3a1079); the importer reads set names written by the exporter (810bb8c) and two-column
 coordinates (6fd00f9); the dimension of a geometry is decided from its own frame, no `_dimension` carried from call
-to call (ba72c38); identifiers that do not fit the 32 bit integers of the format are refused (0e66e4b).
+to call (ba72c38); identifiers that do not fit the 32 bit integers of the format are refused (0e66e4b);
+and with the follow-up repairs tools/fixes/C20-3-*.diff, C20-4-*.diff: `add_variable` validates its arguments before
+it creates anything; element nodal values are written in the order of the connectivity stored by `add_geometry`,
+whatever the row order of the variable's frame is (a frame whose rows are not the (element, node) pairs of whole
+elements of the geometry is refused).
 -/
 namespace PylifeVerif.Vmap
 
@@ -204,12 +208,37 @@ def resolveLoc (var : String) : Option Nat → Option Nat
     | some d => some d.2
     | none => none
 
-/-- The two datasets of a variable group for a frame whose columns `idx` are exported. -/
-def buildVariable {V} [Cell V] (loc : Nat) (fr : Frame V) (idx : List Nat) : Variable V :=
+/-- Pairwise distinct keys (`Index.is_unique`). -/
+def allDistinct : List (Int × Int) → Bool
+  | [] => true
+  | a :: l => !(l.contains a) && allDistinct l
+
+/-- The stored elements of the geometry that occur in the variable's frame, in stored order. -/
+def enElements {V} (g : Geometry V) (fr : Frame V) : List (Int × Nat × List Int) :=
+  g.elements.filter (fun el => (fr.rows.map (·.eid)).contains el.1)
+
+/-- The (element, node) pairs of those elements in the order of the stored connectivity: the order in which a
+reader assigns the values of an element nodal variable. -/
+def enTarget {V} (g : Geometry V) (fr : Frame V) : List (Int × Int) :=
+  (enElements g fr).flatMap (fun el => el.2.2.map (fun n => (el.1, n)))
+
+/-- The frame row with a given (element, node) key. -/
+def rowAt {V} (rows : List (Row V)) (k : Int × Int) : Option (Row V) := rows.find? (fun r => r.key == k)
+
+/-- The two datasets of a variable group for a frame whose columns `idx` are exported.  NODE: first
+non-missing cell per node.  ELEMENT_NODAL (`_element_nodal_positions`): the frame's rows looked up by the stored
+(element, node) pairs; `none` (KeyError / InvalidIndexError) when the frame's keys are not distinct, a stored pair has no
+row, or the frame has other rows than those. -/
+def buildVariable {V} [Cell V] (loc : Nat) (g : Geometry V) (fr : Frame V) (idx : List Nat) : Option (Variable V) :=
   if loc = 2 then
-    ⟨2, idx.length, nodeIds fr, (nodeIds fr).map (nodeValue fr.rows idx)⟩
+    some ⟨2, idx.length, nodeIds fr, (nodeIds fr).map (nodeValue fr.rows idx)⟩
   else
-    ⟨loc, idx.length, elemIds fr, (byElement fr.rows).map (selRow idx)⟩
+    let keys := fr.rows.map Row.key
+    let tgt := enTarget g fr
+    if allDistinct keys && tgt.all (fun k => keys.contains k) && (keys.length == tgt.length) then
+      some ⟨loc, idx.length, (enElements g fr).map (·.1),
+        tgt.filterMap (fun k => (rowAt fr.rows k).map (selRow idx))⟩
+    else none
 
 /-- The identifiers a variable of location `loc` writes fit the format. -/
 def varIdsFit {V} (loc : Nat) (fr : Frame V) : Bool :=
@@ -219,38 +248,45 @@ def varIdsFit {V} (loc : Nat) (fr : Frame V) : Bool :=
 def ensureGroup {V} (f : File V) (state geom : String) : File V :=
   if f.groups.contains (state, geom) then f else { f with groups := f.groups ++ [(state, geom)] }
 
-/-- `add_variable` from the point where the groups exist. -/
-def addVariableCore {V} [Cell V] (f1 : File V) (state geom var : String) (fr : Frame V)
-    (cols : Option (List String)) (loc : Option Nat) : File V × Option Err :=
+/-- `add_variable` from the point where the arguments are resolved and the groups exist: the variable group is
+created, filled, and deleted again if filling raises. -/
+def addVariableCore {V} [Cell V] (f1 : File V) (g : Geometry V) (state geom var : String) (fr : Frame V)
+    (names : List String) (l : Nat) : File V × Option Err :=
   if (f1.vars.lookup (state, geom, var)).isSome then (f1, some .key) else
-  match resolveCols var cols with
-  | none => (f1, some .key)
-  | some names =>
-    match resolveLoc var loc with
-    | none => (f1, some .apiUse)
-    | some l =>
-      if l ≠ 2 ∧ l ≠ 6 then (f1, some .apiUse) else
-      -- the variable group is created, filled, and deleted again if filling raises
-      let f2 : File V := { f1 with vars := f1.vars ++ [((state, geom, var), (⟨l, names.length, [], []⟩ : Variable V))] }
-      let rollback : File V := { f2 with vars := eraseKey (state, geom, var) f2.vars }
-      if !(varIdsFit l fr) then (rollback, some .exportErr) else
-      match colIdx fr.cols names with
-      | none => (rollback, some .exportErr)
-      | some idx =>
-        if names.any (fun c => fr.objCols.contains c) then (rollback, some .exportErr)
-        else ({ f2 with vars := setKey (state, geom, var) (buildVariable l fr idx) f2.vars }, none)
+  let f2 : File V := { f1 with vars := f1.vars ++ [((state, geom, var), (⟨l, names.length, [], []⟩ : Variable V))] }
+  let rollback : File V := { f2 with vars := eraseKey (state, geom, var) f2.vars }
+  match colIdx fr.cols names with
+  | none => (rollback, some .exportErr)
+  | some idx =>
+    if names.any (fun c => fr.objCols.contains c) then (rollback, some .exportErr) else
+    match buildVariable l g fr idx with
+    | none => (rollback, some .exportErr)
+    | some v => ({ f2 with vars := setKey (state, geom, var) v f2.vars }, none)
 
 /-- `add_variable`.  `cols = none` / `loc = none`: the optional arguments are not given; `loc = some k` with
 `k ∉ {2, 6}` stands for a `location` that is not a `VariableLocations` member. -/
 def addVariable {V} [Cell V] (f : File V) (state geom var : String) (fr : Frame V)
     (cols : Option (List String)) (loc : Option Nat) : File V × Option Err :=
-  if (f.geoms.lookup geom).isNone then (f, some .key)
-  else addVariableCore (ensureGroup f state geom) state geom var fr cols loc
+  match f.geoms.lookup geom with
+  | none => (f, some .key)
+  | some g =>
+    -- the arguments are validated before anything is created in the file
+    match resolveCols var cols with
+    | none => (f, some .key)
+    | some names =>
+      match resolveLoc var loc with
+      | none => (f, some .apiUse)
+      | some l =>
+        if l ≠ 2 ∧ l ≠ 6 then (f, some .apiUse) else
+        if !(varIdsFit l fr) then (f, some .exportErr) else
+        addVariableCore (ensureGroup f state geom) g state geom var fr names l
 
 /-- The node ids (`kind = 0`) or element ids (`kind = 1`) of a frame. -/
 def idsOf {V} (kind : Nat) (fr : Frame V) : List Int := fr.rows.map (fun r => if kind = 0 then r.nid else r.eid)
 
-/-- `add_node_set` (`kind = 0`) / `add_element_set` (`kind = 1`); `nameOk = false`: `name` is not a `str`. -/
+/-- `add_node_set` (`kind = 0`) / `add_element_set` (`kind = 1`); `nameOk = false`: `name` is not a `str`.
+(The code looks the geometry up before it checks that the members fit int32; both refusals leave the file as it is, so their
+order does not show.) -/
 def addSet {V} (f : File V) (kind : Nat) (geom : String) (ids : List Int) (fr : Frame V)
     (nameOk : Bool) (name : String) : File V × Option Err :=
   if !(ids.all (fun i => (idsOf kind fr).contains i)) then (f, some .key) else
